@@ -147,10 +147,13 @@ where
     // qual
     write_quality_scores(dst, base_count, record.quality_scores_ref())?;
 
-    write_data(dst, record.data_ref())?;
-
     if cigar.is_some() {
+        // The overflowing CIGAR is appended as a CG field. Field-encoded data, e.g., of a lazily
+        // read record, may already carry one, which the generic path drops.
+        data::write_generic_data(dst, record.data())?;
         data::field::write_cigar(dst, &record.cigar())?;
+    } else {
+        write_data(dst, record.data_ref())?;
     }
 
     Ok(())
